@@ -294,7 +294,18 @@ func buildFswScenario(r *Rng, root string, idx int) *fswScenario {
 	for _, d := range pwDirs {
 		_ = os.MkdirAll(d, 0o755)
 	}
+	store := path.Join(root, fmt.Sprintf("store%d", idx))
 	for p, b := range files {
+		// a key file may be a symbolic link to a regular file elsewhere (the secret-volume layout): it is a file
+		// whose name matches all the same
+		if strings.HasPrefix(p, dir+"/") && r.Intn(4) == 0 {
+			_ = os.MkdirAll(store, 0o755)
+			target := path.Join(store, path.Base(p))
+			_ = os.WriteFile(target, b, 0o600)
+			if os.Symlink(target, p) == nil {
+				continue
+			}
+		}
 		_ = os.WriteFile(p, b, 0o600)
 	}
 	all := map[string][]byte{}
